@@ -112,7 +112,10 @@ impl FileObj {
                 for op in &self.pending[..upto] {
                     apply(&mut c, op, None);
                 }
-                // the last surviving write is torn at a sector (512) or arbitrary byte boundary
+                // the last surviving write is torn: a log append at any byte (later appends land
+                // in the same sector, so any length can be what reached the disk), an in-place
+                // write at a 512-byte sector boundary (pages are sector-aligned and a sector is
+                // written whole or not at all; tearing inside one is harsher than any disk)
                 let last = &self.pending[upto];
                 let len = match last {
                     FOp::Write { data, .. } | FOp::Append { data } => data.len(),
@@ -121,7 +124,14 @@ impl FileObj {
                 if len == 0 {
                     apply(&mut c, last, None);
                 } else {
-                    let k = if len > 512 && rng.chance(1, 2) { 512 * (1 + rng.below(len / 512)) } else { rng.below(len + 1) };
+                    let in_place = matches!(last, FOp::Write { .. });
+                    let k = if in_place {
+                        if len < 512 { if rng.chance(1, 2) { 0 } else { len } } else { 512 * rng.below(len / 512 + 1) }
+                    } else if len > 512 && rng.chance(1, 2) {
+                        512 * (1 + rng.below(len / 512))
+                    } else {
+                        rng.below(len + 1)
+                    };
                     apply(&mut c, last, Some(k));
                 }
                 c
